@@ -120,8 +120,12 @@ def run(tier: str, seed: int) -> int:
         inj = work.path('inject.ndjson')
         finj = pool.submit(core.run_driver, 'c12_driver.py', ['inject', ref, ptf, inj], timeout=1500,
                            env={'VERIF_SEED': seed, 'VERIF_TIER': tier})
+        ph = {'ref+points': round(time.time() - t0, 1)}
         paths1, r1 = f1.result()
+        dpool = cf.ThreadPoolExecutor(max_workers=4)
+        d1 = dpool.submit(_drive, work, 'p1', paths1, 'aw-bytes,aw-text', seed, tier, 3 if quick else 6)
         paths2, r2 = f2.result()
+        ph['schedules'] = round(time.time() - t0, 1)
         rnd = random.Random(seed)
         model_ops: dict = {}
         for p in paths1 + paths2:
@@ -143,11 +147,13 @@ def run(tier: str, seed: int) -> int:
             sel2 = paths2
             sel2t = rnd.sample(paths2, min(len(paths2), 3000))
         recs = [ref]
-        recs += _drive(work, 'p1', paths1, 'aw-bytes,aw-text', seed, tier, 3 if quick else 6)
-        recs += _drive(work, 'p2b', sel2, 'aw-bytes', seed, tier, 4 if quick else 10)
-        recs += _drive(work, 'p2t', sel2t, 'aw-text', seed, tier, 1 if quick else 3)
+        d2 = dpool.submit(_drive, work, 'p2b', sel2, 'aw-bytes', seed, tier, 4 if quick else 10)
+        d3 = dpool.submit(_drive, work, 'p2t', sel2t, 'aw-text', seed, tier, 1 if quick else 3)
+        recs += d1.result() + d2.result() + d3.result()
+        dpool.shutdown()
         finj.result()
         recs.append(inj)
+        ph['drivers'] = round(time.time() - t0, 1)
         # 4. TLC validates every logged run
         allm = []
         total = 0
@@ -156,27 +162,35 @@ def run(tier: str, seed: int) -> int:
         impl_ops: dict = {}
         samples = []
         kinds: dict = {}
-        for p in recs:
-            mism, st = core.validate_records('AtomicWriteTrace', 'AtomicWriteTrace.cfg', p, work=work)
-            allm += mism
-            total += st['records']
-            cov['states'] += st['states']
-            cov['transitions'] += st['transitions']
-            rs = core.read_ndjson(p)
-            for r in rs:
-                kinds[r['sig']['kind'] + '/' + r['sig']['action']] = kinds.get(r['sig']['kind'] + '/' + r['sig']['action'], 0) + 1
-                for e in r['ev']:
-                    k = f"{e['op']}:{e['res']}"
-                    impl_ops[k] = impl_ops.get(k, 0) + 1
-                if r['plan']:
-                    scheduled += 1
-                    ev = r['ev'][:-1]
-                    if len(ev) == len(r['plan']) and all(_same(a, b, r['unit']) for a, b in zip(r['plan'], ev)):
-                        followed += 1
-            mid = rs[len(rs) // 2]
+        merged = work.path('all.ndjson')
+        with open(merged, 'w', encoding='utf-8') as mf:
+            for p in recs:
+                with open(p, encoding='utf-8') as f:
+                    for ln in f:
+                        mf.write(ln)
+        mism, st = core.validate_records('AtomicWriteTrace', 'AtomicWriteTrace.cfg', merged, work=work, timeout=2400)
+        allm += mism
+        total += st['records']
+        cov['states'] += st['states']
+        cov['transitions'] += st['transitions']
+        rs = core.read_ndjson(merged)
+        for r in rs:
+            kinds[r['sig']['kind'] + '/' + r['sig']['action']] = kinds.get(r['sig']['kind'] + '/' + r['sig']['action'], 0) + 1
+            for e in r['ev']:
+                k = f"{e['op']}:{e['res']}"
+                impl_ops[k] = impl_ops.get(k, 0) + 1
+            if r['plan']:
+                scheduled += 1
+                ev = r['ev'][:-1]
+                if len(ev) == len(r['plan']) and all(_same(a, b, r['unit']) for a, b in zip(r['plan'], ev)):
+                    followed += 1
+        for j in (0, len(rs) // 5, len(rs) // 2, (len(rs) * 4) // 5, len(rs) - 1):
+            mid = rs[j]
             samples.append({'sig': mid['sig'], 'init': mid['init'],
                             'events': [[e['w'], e['op'], e['res'], e['n'], e['i']] for e in mid['ev']][:40],
                             'directory_after': mid['ev'][-1]['ls']})
+        del rs
+        ph['validated'] = round(time.time() - t0, 1)
         for c, fut in mc_futs.items():
             r = fut.result()
             core.require_mc(r, c)
@@ -184,6 +198,8 @@ def run(tier: str, seed: int) -> int:
             cov['states'] += r.distinct
             cov['transitions'] += r.generated
         pool.shutdown()
+        ph['model_checked'] = round(time.time() - t0, 1)
+        cov['phase_end_s'] = ph
         cov['traces_validated_against_impl'] = total
         cov['records_validated'] = total
         cov['runs_by_kind'] = kinds
